@@ -127,12 +127,18 @@ def gen_cases(rng, tier):
                 apply_fault(rng, cfg, c["turns"][pos], site)
                 cases.append(c)
     # faults mixed with rejections / rewrites (random), incl. triples
-    for _ in range(60 if tier == "quick" else 2500):
+    for _ in range(50 if tier == "quick" else 2500):
         cfg = G.gen_cfg(rng)
         w = (0.5, 0.12, 0.13, 0.25)
         cfg["turns"] = [G.gen_turn(rng, cfg, k + 1, w, w, p_retr=0.15) for k in range(rng.choice([2, 3, 4]))]
         cfg["turns"].append(G.clean_turn(rng, cfg, len(cfg["turns"]) + 1))
+        if rng.random() < 0.4:
+            G.collapse_texts(rng, cfg, p_bot=0.5, p_user=0.4)  # the texts after a fault repeat earlier ones
         cases.append(cfg)
+    # a fault after the rails' variables were set, then texts that repeat the visible / the hidden / an earlier rejected one
+    # (user text and LLM text together), see pipeline_cases.REPEAT_PATTERNS
+    cases.extend(G.repeat_cases(rng, tier, "both", patterns=[G.REPEAT_PATTERNS[i] for i in (0, 1, 5)] if tier == "quick" else None))
+    cases.extend(G.repeat_cases(rng, tier, "in", patterns=G.REFUSAL_REPEAT[:1] if tier == "quick" else G.REFUSAL_REPEAT))
     return G.sort_cases(cases)
 
 
@@ -140,11 +146,11 @@ def gen_cases(rng, tier):
 
 def expected_in(case, tc):
     n = 0
-    for rid in G.eff_in(case):
+    for rid in G.eff_in(case, tc):
         n += 1
         if G.verdict_of(tc, "in", rid) in ("r", "f"):
             break
-    return G.eff_in(case)[:n]
+    return G.eff_in(case, tc)[:n]
 
 
 def turn_oracle(case, tc, to, after_fault):
@@ -155,7 +161,11 @@ def turn_oracle(case, tc, to, after_fault):
     rep = to["reply"]
     text = G.reply_text(rep)
     bot = G.sentinel(tc["bot"])
-    out_ids = [s[2] for s in steps if s[0] == "rail" and s[1] == "out" and s[3] and bot in s[3]]
+    # the output rails that ran on the bot message of this turn: those after the last generation call (a rail is shown the text its
+    # predecessor left, which need not carry the LLM text's token any more - a later rail may even rewrite it back)
+    gen_idx = [i for i, s in enumerate(steps) if s[0] == "llm" and s[1] in G.GEN_TASKS]
+    last_gen = max(gen_idx) if gen_idx else -1
+    out_ids = [s[2] for i, s in enumerate(steps) if s[0] == "rail" and s[1] == "out" and i > last_gen]
     carries_llm_text = bot in text
     rail_fault = [s for s in steps if s[0] == "rail" and G.verdict_of(tc, s[1], s[2]) == "f"]
     if rail_fault:
@@ -168,8 +178,8 @@ def turn_oracle(case, tc, to, after_fault):
         if rail_fault[0][1] == "in" and any(s[0] == "llm" for s in steps):
             return f"[fault-llm] input rail {rail_fault[0][2]} raised on the user message, yet {[s[1] for s in steps if s[0] == 'llm']} ran on it"
     # "never the unchecked LLM text" (also after a dialog / retrieval action fault)
-    if carries_llm_text and out_ids != G.eff_out(case):
-        return f"[unchecked-text] the reply carries the LLM text but only output rails {out_ids} of {G.eff_out(case)} ran on it"
+    if carries_llm_text and out_ids != G.eff_out(case, tc):
+        return f"[unchecked-text] the reply carries the LLM text but only output rails {out_ids} of {G.eff_out(case, tc)} ran on it"
     # "the next turn is processed with all rails active"
     if after_fault:
         ids = [s[2] for s in steps if s[0] == "rail" and s[1] == "in"]
@@ -179,6 +189,25 @@ def turn_oracle(case, tc, to, after_fault):
         stop = next((rid for rid in want if G.verdict_of(tc, "in", rid) == "r"), None)
         if stop is not None and any(s[0] == "llm" for s in steps):
             return f"[poisoned-reject] after a faulty turn input rail {stop} rejected the message, yet the LLM was called"
+        if stop is not None and not (rep["exc"] or (rep["role"] == "assistant" and text in (G.REFUSAL, G.INTERNAL_ERROR))):
+            return f"[poisoned-reply] after a faulty turn input rail {stop} rejected the message but the reply is {text[:80]!r}, not the refusal"
+        # ... and it is THIS turn's content the rails are active on: nothing of the failed turn (or of any other) is what a rail
+        # is shown or what is returned
+        for kind, start, conf in (("in", tc["user"], G.eff_in(case, tc)), ("out", tc["bot"], G.eff_out(case, tc))):
+            cur = start
+            calls = [s for s in steps if s[0] == "rail" and s[1] == kind]
+            if kind == "out" and case["ver"] == "2.x":
+                continue  # 2.x: the refusal of an input rail passes the output rails as well
+            for rid, s in zip(conf, calls):
+                if s[2] != rid:
+                    break
+                if s[3] != cur:
+                    return f"[poisoned-text] after a faulty turn {kind}put rail {rid} was shown {s[3]!r} instead of this turn's text {cur!r}"
+                v = G.verdict_of(tc, kind, rid)
+                if case["ver"] == "1.0" and G.is_rewrite(v):
+                    cur = v[1]
+            if kind == "out" and calls and rep["role"] == "assistant" and not rep["exc"] and text not in (G.REFUSAL, G.INTERNAL_ERROR, "", cur):
+                return f"[poisoned-reply] after a faulty turn the reply {text[:80]!r} is neither this turn's checked text nor the refusal / internal-error message"
     return None
 
 
